@@ -88,6 +88,12 @@ type tok struct {
 	// provSigned: made by the harness with the provider's own signing key, right issuer, unexpired. Declared as an
 	// id token (which nobody tracks) such a string cannot be told from a genuine one.
 	provSigned bool
+	// emptyID: decrypts under the provider's key to ":<something>", i.e. an opaque token with an empty id. The
+	// reference storage takes an empty actor token id for "no actor token" and skips its liveness check, so in the
+	// actor role such a string is left open (trusted-base looseness, reported); everywhere else it must be refused.
+	// Flipped IV bytes garble the whole first plaintext block, so which flips fall into this class depends on the
+	// random IV of the run; the class is computed from the actual string, the verdicts are deterministic.
+	emptyID bool
 }
 
 type world struct {
@@ -495,6 +501,7 @@ func build(t *testing.T, c *engine.Check, thorough bool, pt part) *world {
 	if !w.dyn {
 		add("g.unissued", "sealed-unissued", seal("x:y", cryptoKey), -1, genNone, "x:y sealed under the right key, never issued")
 		add("g.garbage64", "garbage", strings.Repeat("QUJD", 8), -1, genNone, "base64url text that decrypts to noise")
+		add("g.emptyid", "sealed-empty-id", seal(":u1", cryptoKey), -1, genNone, "':u1' sealed under the right key: well-formed, empty token id")
 	}
 	add("g.garbagetxt", "garbage", "not a token!", -1, genNone, "")
 	if !w.dyn {
@@ -516,6 +523,9 @@ func build(t *testing.T, c *engine.Check, thorough bool, pt part) *world {
 				if parts := strings.Split(plain, ":"); len(parts) == 2 && parts[0] == f.atID {
 					tk.names = f.atID
 				}
+			}
+			if parts := strings.Split(plain, ":"); len(parts) == 2 && parts[0] == "" {
+				tk.emptyID = true
 			}
 		}
 	}
@@ -596,7 +606,7 @@ func build(t *testing.T, c *engine.Check, thorough bool, pt part) *world {
 					// requested_token_type named explicitly (so that the answer does not hinge on the storage's
 					// default, which refstore only fills in after its own liveness check); thorough adds the implicit form
 					rtts := []string{"rtt-at"}
-					if thorough && !w.dyn {
+					if thorough && !w.dyn && (tt == "access_token" || tt == "refresh_token") {
 						rtts = append(rtts, "rtt-none")
 					}
 					for _, rtt := range rtts {
@@ -620,8 +630,7 @@ func build(t *testing.T, c *engine.Check, thorough bool, pt part) *world {
 		}
 	}
 	if w.dyn {
-		w.battery = []string{"ui|R|ja.at|hdr", "ui|R|oa.at|form", "in|R|ja.at|api", "in|R|oa.at|api", "rv|R|g.garbagetxt|owner|none",
-			"ex|R|ja.at|subject|access_token|rtt-at", "ex|R|ja.idt|subject|id_token|rtt-at", "ex|R|oa.rt|actor|refresh_token|rtt-at", "es|R|ja|hint"}
+		w.battery = []string{"ui|R|ja.at|hdr", "in|R|oa.at|api", "rv|R|g.garbagetxt|owner|none", "ex|R|ja.idt|subject|id_token|rtt-at", "es|R|ja|hint"}
 		variants := []string{"", "~twin"}
 		if thorough {
 			variants = append(variants, "~all")
@@ -1438,6 +1447,9 @@ func (w *world) doExchange(s S, p []string, router, host int, do doFn, resp **ri
 		// a live token presented under another type name, or next to an expired subject, an id token of a
 		// closed session, a live opaque string under another host of a dynamic issuer
 		exp = "either"
+	case role == "actor" && tk.emptyID:
+		exp = "either"
+		class = "empty-id"
 	case tt == "id_token" && tk.provSigned && now.Before(engine.Epoch.Add(atLife)):
 		// harness-made string carrying the provider's signature and issuer, unexpired: as an id token it is as good as issued
 		exp = "either"
@@ -1590,7 +1602,8 @@ func TestCheck(t *testing.T) {
 		"strings signed with the provider's own signing key by the harness (other issuer / expired / unissued jti / other subject) stand for a multi-tenant or key-sharing deployment; none of them names a live (issuer, jti, subject, exp) tuple; declared as id_token (which nobody tracks) the unexpired right-issuer ones are left open",
 		"tokens created by a successful exchange are discarded after the step (the actors never present them)",
 		"a panic in a handler is classified 'panic' and is property C09's business; it satisfies must-refuse, not must-serve",
-		"opaque token ciphertexts use the provider's random IVs; verdict classes do not depend on them",
+		"opaque token ciphertexts use the provider's random IVs; every tampered string is decrypted when the alphabet is built and classified by what it really decrypts to (names a live id / empty id / noise), so verdicts do not depend on the IV",
+		"refstore takes an empty actor token id for 'no actor token': a string that decrypts to ':<subject>' (empty id, which the library parses as a well-formed opaque token) is left open in the actor role of token exchange and must be refused everywhere else",
 		"id tokens are tracked by nobody (refstore vouches for every id token the library verified): an unexpired id token must be accepted as exchange subject / actor while its session still has a token in the store, is left open afterwards, and must be refused once expired",
 		"dynamic-issuer parts: the provider object is rebuilt for every transition and re-serves the recorded path to the state before the judged request, so memory inside the provider that stems from earlier requests of the history is in effect; the abstract state carries (host of the first request, both hosts served) as the key such memory could have; opaque strings (opaque access token, refresh token) presented under the other host are left open while live, strings with an iss claim (JWT access token, id token) must not be honoured there")
 	thorough := c.Thorough()
